@@ -815,6 +815,15 @@ def render_file(f, ch=None, marks=None, features=None, form=None, length_limit=T
             q = r.ch.choice(["'", '"'])
             lines[a:b] = [Line(f"{r.kw('include')} {q}{inc_name}{q}", nobreak=True)]
             r.used.setdefault("include-split", set()).add("yes")
+            if r.ch.bool(1, 3):
+                # an included file without any statement (a licence header): nothing of it appears, nothing is lost
+                hdr_name = os.path.basename(f["path"]).rsplit(".", 1)[0] + "_header.inc"
+                c = "C" if form == "fixed" and r.ch.bool() else "!"
+                extras[os.path.join(os.path.dirname(f["path"]), hdr_name)] = "".join(
+                    f"{c} header line {k} of {hdr_name}\n" for k in range(r.ch.count(1, 3)))
+                hdr = [Line(f"{r.kw('include')} {q}{hdr_name}{q}", nobreak=True) for _ in range(r.ch.count(1, 2))]
+                lines[a:a] = hdr
+                r.used.setdefault("include-empty", set()).add("yes")
     if form == "fixed":
         text = r.layout_fixed(lines, f.get("doc"), length_limit)
         if not r.fixed_ok:
